@@ -89,3 +89,40 @@ fn er_contract<const L: usize, const QUERIES: bool, const REMOVE: bool>()
 #[kani::proof] #[kani::unwind(4)] fn k_entity_reactors_queries_l1() { er_contract::<1, true, false>(); }
 //# id=K.entity_reactors.queries.L2 props=C01,C16 strength=bounded shape="per-entity list L=2, all contents" tier=quick fns=EntityReactors::insert,EntityReactors::count,EntityReactors::iter_rtype,EntityReactors::iter_reactors
 #[kani::proof] #[kani::unwind(5)] fn k_entity_reactors_queries_l2() { er_contract::<2, true, false>(); }
+
+// ---------------------------------------------------------------------------------------------------------------
+// K.token.*: RevokeToken (C06, C16).
+//   new_from(sys, bundle): the token names EXACTLY the reactor types of the bundle's triggers (what `register` stores under,
+//     see Verus unit `triggers`), in bundle order, and carries the reactor id;
+//   iter_unique_entities(): every entity named by an entity-scoped element exactly once, nothing for type-wide elements.
+// Shape: bundles of 0..3 triggers over entity-scoped / type-wide / despawn kinds; entity ids symbolic.
+// ---------------------------------------------------------------------------------------------------------------
+#[derive(Clone, Copy)] struct CompA; impl ReactComponent for CompA {}
+//# id=K.token.new_from props=C06,C16 strength=bounded shape="bundle (entity_mutation<A>(e1), broadcast<u8>, entity_event<u32>(e2)); entity ids symbolic" tier=quick fns=RevokeToken::new_from,get_reactor_types
+#[kani::proof] #[kani::unwind(6)]
+fn k_token_new_from() {
+    let (e1, e2) = (any_entity(), any_entity());
+    let sys = any_sys();
+    let t = RevokeToken::new_from(sys, (entity_mutation::<CompA>(e1), broadcast::<u8>(), entity_event::<u32>(e2)));
+    assert!(t.id == sys, "RevokeToken::new_from: carries the reactor id");
+    assert!(t.reactors.len() == 3, "RevokeToken::new_from: one reactor type per trigger of the bundle");
+    assert!(t.reactors[0] == ReactorType::EntityMutation(e1, TypeId::of::<CompA>()), "RevokeToken::new_from: names the trigger's kind, entity and component type");
+    assert!(t.reactors[1] == ReactorType::Broadcast(TypeId::of::<u8>()), "RevokeToken::new_from: names the trigger's kind and event type");
+    assert!(t.reactors[2] == ReactorType::EntityEvent(e2, TypeId::of::<u32>()), "RevokeToken::new_from: names the trigger's kind, entity and event type");
+    let t0 = RevokeToken::new_from(sys, ());
+    assert!(t0.reactors.len() == 0 && t0.id == sys, "RevokeToken::new_from: empty bundle => empty token");
+    core::mem::forget(t); core::mem::forget(t0);
+}
+//# id=K.token.unique_entities props=C16,C06 strength=bounded shape="token of 4 elements: 2 entity-scoped on e1 (different kinds), 1 type-wide, 1 despawn(e2); e1/e2 symbolic (possibly equal)" tier=quick fns=RevokeToken::iter_unique_entities,ReactorType::get_entity
+#[kani::proof] #[kani::unwind(8)]
+fn k_token_unique_entities() {
+    let (e1, e2) = (any_entity(), any_entity());
+    let arr = [ReactorType::EntityMutation(e1, tid(0)), ReactorType::Broadcast(tid(1)), ReactorType::EntityEvent(e1, tid(1)), ReactorType::Despawn(e2)];
+    let t = RevokeToken{ reactors: Arc::from(&arr[..]), id: any_sys() };
+    let mut it = t.iter_unique_entities();
+    assert!(it.next() == Some(e1), "RevokeToken::iter_unique_entities: the first entity named by the token");
+    if e2 != e1 { assert!(it.next() == Some(e2), "RevokeToken::iter_unique_entities: every other entity named by the token"); }
+    assert!(it.next().is_none(), "RevokeToken::iter_unique_entities: each entity exactly once; type-wide elements name no entity");
+    drop(it);
+    core::mem::forget(t);
+}
